@@ -245,6 +245,17 @@ pub fn run(tier: &str) -> i32 {
             ("length(@.x) OP @.y", "length(@.x)".into(), "@.y".into()),
             ("count(@.x) OP count(@.y)", "count(@.x)".into(), "count(@.y)".into()),
             ("count(@.x.*) OP length(@.y)", "count(@.x.*)".into(), "length(@.y)".into()),
+            // "nothing" in its different internal guises on either side: an absent member, an empty slice, a filter
+            // without a hit, a step after a multi-node step, several nodes
+            ("@.x OP value(@.y[5:])", "@.x".into(), "value(@.y[5:])".into()),
+            ("value(@.y[5:]) OP @.x", "value(@.y[5:])".into(), "@.x".into()),
+            ("@.x OP value(@.y[?@==7777])", "@.x".into(), "value(@.y[?@==7777])".into()),
+            ("@.x OP value(@.y.*.zz)", "@.x".into(), "value(@.y.*.zz)".into()),
+            ("@.x OP value(@..zz)", "@.x".into(), "value(@..zz)".into()),
+            ("value(@.x[0:0]) OP value(@.zz)", "value(@.x[0:0])".into(), "value(@.zz)".into()),
+            ("value(@.x.*) OP @.y", "value(@.x.*)".into(), "@.y".into()),
+            ("@.x OP value(@.y[0:1])", "@.x".into(), "value(@.y[0:1])".into()),
+            ("length(value(@.x[5:])) OP length(@.y)", "length(value(@.x[5:]))".into(), "length(@.y)".into()),
         ];
         for (what, l, r) in forms {
             let cells = cells_xy.clone();
